@@ -195,13 +195,17 @@ def gen_socket_case(rng):
     elif r < 0.63:
         msgs[k] = rng.choice([b"", b"x" + msgs[k][1:], msgs[k][:1], msgs[k][:len(msgs[k]) // 2]]) if k != 0 else rng.choice([b"", b"x" + msgs[k][1:], b"ok"])
         conforming, why = False, "malformed"
-    elif r < 0.7:
+    elif r < 0.68:
         i, j = rng.sample(range(3), 2)
         msgs[i], msgs[j] = msgs[j], msgs[i]
         conforming, why = False, "order"
+    elif r < 0.78:
+        # an extra frame where a message is due: empty (what a tick looks like after the handshake), a repeated status, junk
+        msgs.insert(k, rng.choice([b"", b"", b"sok", b"x", bytes(rng.randrange(256) for _ in range(5))]))
+        conforming, why = False, "extra"
     actions = []
     stop = None
-    if r >= 0.7:
+    if r >= 0.78:
         # the stream stops inside or before message k
         full = hsf(msgs[k])
         cut = rng.choice([0, 1, 2, 3, max(0, len(full) - 1)])
